@@ -28,6 +28,47 @@ KIND = {"q": "qDOF", "q_dot": "qDOF", "u": "uDOF", "u_dot": "uDOF", "la_c": "la_
         "P_gamma": "la_gammaDOF", "la_N": "la_NDOF", "P_N": "la_NDOF", "la_F": "la_FDOF", "P_F": "la_FDOF"}
 
 
+def rectangle_axes(ctx, rule="C29.R15"):
+    """K15 idea: width is the extent along e_y^B = d2, height along e_z^B = d3.  Two written forms are read: products `d2 * self.width`,
+    `d3 * self.height` (a product of d2 with the height, or d3 with the width, is the swap), and a literal table of corner coordinates
+    multiplied with np.array([d2, d3]) (first column = width entries, second column = height entries)."""
+    rep = ctx.rep
+    CS = "cardillo/rods/_cross_section.py"
+    fn = ctx.repo.maybe(CS, "RectangularCrossSection.vtk_compute_points")
+    C = f"{CS}:RectangularCrossSection.vtk_compute_points"
+    if fn is None:
+        rep.ok(rule, C, "routine not found (no verdict)", verdict="unknown", trivial=True)
+        return
+    n = 0
+    bad = None
+    for w in ast.walk(fn):
+        if isinstance(w, ast.BinOp) and isinstance(w.op, (ast.Mult, ast.Div)):
+            # maximal product chains only
+            pa = getattr(w, "_parent", None)
+            if isinstance(pa, ast.BinOp) and isinstance(pa.op, (ast.Mult, ast.Div)):
+                continue
+            names = {x.id for x in ast.walk(w) if isinstance(x, ast.Name)}
+            attrs = {x.attr for x in ast.walk(w) if isinstance(x, ast.Attribute) and dotted(x.value) == "self"}
+            if names & {"d2", "d3"} and attrs & {"width", "height"}:
+                n += 1
+                if ("d2" in names and "height" in attrs and "width" not in attrs) or ("d3" in names and "width" in attrs and "height" not in attrs):
+                    bad = bad or w
+        elif isinstance(w, ast.Call) and (dotted(w.func) or "").split(".")[-1] == "array" and w.args and isinstance(w.args[0], (ast.List, ast.Tuple)) \
+                and all(isinstance(r, (ast.List, ast.Tuple)) and len(r.elts) == 2 for r in w.args[0].elts) and len(w.args[0].elts) >= 2:
+            cols = [[{x.attr for x in ast.walk(r.elts[k]) if isinstance(x, ast.Attribute)} for r in w.args[0].elts] for k in (0, 1)]
+            if any(c & {"width", "height"} for col in cols for c in col):
+                n += 1
+                if any("height" in c for c in cols[0]) or any("width" in c for c in cols[1]):
+                    bad = bad or w
+    if bad is not None:
+        rep.bad(rule, C, bad, f"`{norm_src(bad)[:80]}` pairs the height with d2 / the width with d3: the exported box is turned by 90 degrees about the rod axis (points r_OP +- h/2 e_y +- w/2 e_z), so for "
+                "width != height the written points are not the rod's geometry", f"{CS}:{bad.lineno}")
+    elif n:
+        rep.ok(rule, C, f"{n} width / height terms paired with d2 / d3 as the class defines them")
+    else:
+        rep.ok(rule, C, "no width / height term recognised (no verdict)", verdict="unknown", trivial=True)
+
+
 def timestep_format(ctx, rule="C29.R14"):
     """'lists existing data files in time order, one per exported frame': the listed time is the frame's time to a fixed absolute resolution.
     A general format keeps a fixed number of SIGNIFICANT digits, so its absolute resolution degrades with |t| (late start, long horizon)."""
@@ -152,6 +193,8 @@ def merge_is_concatenation(ctx, rule="C29.R11"):
 
 def run(ctx):
     rep = ctx.rep
+    rep.rule("C29.R15", "rectangular cross-section: in the exported corner points the WIDTH multiplies the d2 direction and the HEIGHT the d3 direction (the convention of the class: area, second moments, B_r_PQ)", 1)
+    rectangle_axes(ctx)
     rep.rule("C29.R14", "the collection lists every frame at its own time: the timestep attribute is written in FIXED notation (a 'g' / significant-digit format rounds t = 20000.03 to 20000 and neighbouring frames collapse onto one listed time)", 1)
     timestep_format(ctx)
     rep.rule("C29.R13", "rod export: a quantity evaluated at (xi, el) gets the element that CONTAINS xi (self.element_number(xi)), not the index of the vtk cell - cells and elements differ as soon as ncells != nelement", 1)
@@ -909,4 +952,9 @@ MUTANTS += [
 MUTANTS += [
     dict(id="c29-r14-seed", canary=True, what="[seeded by sub-agent] the .pvd timestep attribute is written with the general format {t:g} (six significant digits)", file='cardillo/visualization/vtk_export.py',
          old='        dataset.setAttribute("timestep", f"{t:0.6f}")\n', new='        dataset.setAttribute("timestep", f"{t:g}")\n', expect="C29.R14"),
+]
+
+MUTANTS += [
+    dict(id="c29-r15-seed", canary=True, every=True, what="[seeded by sub-agent] RectangularCrossSection.vtk_compute_points pairs the height with d2 and the width with d3", file='cardillo/rods/_cross_section.py',
+         old='            r_PP2 = d2 * self.width / 2 + d3 * self.height / 2\n            r_PP1 = d2 * self.width / 2 - d3 * self.height / 2\n', new='            r_PP2 = d2 * self.height / 2 + d3 * self.width / 2\n            r_PP1 = d2 * self.height / 2 - d3 * self.width / 2\n', expect="C29.R15"),
 ]
